@@ -100,9 +100,20 @@ structure AccH where
   mergedDt : Option Ref      -- mergedProperties['datatype'|'argument']
 deriving Repr, Inhabited
 
+/-- a `Property` object (properties.py:44-92): what the module-level part of a description is computed from.
+`value` is the value given with the declaration or by a bare class attribute (`UNSET` = `none`), `dflt` is
+`default`, `exported` is `export`: `false`, `true` or `"always"` (canonical JSON text, like all values) -/
+structure PropV where
+  value : Option PVal
+  dflt : PVal
+  extname : String
+  exported : PVal
+deriving DecidableEq, Repr, Inhabited
+
 inductive Obj where
   | acc (a : AccH)
   | dt (t : DTree)
+  | prop (p : PropV)
 deriving Repr, Inhabited
 
 abbrev Heap := List Obj
@@ -111,6 +122,7 @@ namespace Heap
 def alloc (h : Heap) (o : Obj) : Heap × Ref := (h ++ [o], h.length)
 def accAt (h : Heap) (r : Ref) : Option AccH := match h[r]? with | some (.acc a) => some a | _ => none
 def dtAt (h : Heap) (r : Ref) : Option DTree := match h[r]? with | some (.dt t) => some t | _ => none
+def propAt (h : Heap) (r : Ref) : Option PropV := match h[r]? with | some (.prop p) => some p | _ => none
 end Heap
 
 end Frappy.Klass
